@@ -346,10 +346,13 @@ impl OutPointsCache {
 //@|     final(self).removed_outpoints@ == old(self).removed_outpoints@.remove(block.hash),
 //@ start
 //@| proof { axiom_opc_keys(); }
+//@ loopbefore 1
+//@| // the release loops touch the counts only; the two delta maps are whatever they were when the loops began (dropped before or after them)
+//@| let ghost vp_a0 = self.added_outpoints; let ghost vp_r0 = self.removed_outpoints;
 //@ loop 1 binder=it
 //@| invariant
 //@|     opc_keys_ok(), self.wf(),
-//@|     self.added_outpoints == old(self).added_outpoints, self.removed_outpoints == old(self).removed_outpoints,
+//@|     self.added_outpoints == vp_a0, self.removed_outpoints == vp_r0,
 //@|     forall|o: OutPoint| cnt(self.tx_outs@, o) == cnt(old(self).tx_outs@, o) - #[trigger] refs_txs(block.txs@, it.index@ as int, o),
 //@|     forall|o: OutPoint| cnt(old(self).tx_outs@, o) >= #[trigger] refs_block(*block, o),
 //@|     forall|t: int| 0 <= t < block.txs@.len() ==> (#[trigger] block.txs@[t]).ins@.len() < 0x1000_0000 && block.txs@[t].outs@.len() < 0x1000_0000,
@@ -358,14 +361,14 @@ impl OutPointsCache {
 //@ loop 2 binder=it2
 //@| invariant
 //@|     opc_keys_ok(), self.wf(), 0 <= it.index@ < block.txs@.len(), *tx == block.txs@[it.index@ as int],
-//@|     self.added_outpoints == old(self).added_outpoints, self.removed_outpoints == old(self).removed_outpoints,
+//@|     self.added_outpoints == vp_a0, self.removed_outpoints == vp_r0,
 //@|     forall|o: OutPoint| cnt(self.tx_outs@, o) == cnt(old(self).tx_outs@, o) - (#[trigger] refs_txs(block.txs@, it.index@ as int, o) + refs_ins(tx.ins@, it2.index@ as int, o)),
 //@|     forall|o: OutPoint| cnt(old(self).tx_outs@, o) >= #[trigger] refs_block(*block, o),
 //@ loop 3 binder=it3
 //@| invariant
 //@|     opc_keys_ok(), self.wf(), 0 <= it.index@ < block.txs@.len(), *tx == block.txs@[it.index@ as int],
 //@|     vp_i == it3.index@, tx.outs@.len() < 0x1000_0000,
-//@|     self.added_outpoints == old(self).added_outpoints, self.removed_outpoints == old(self).removed_outpoints,
+//@|     self.added_outpoints == vp_a0, self.removed_outpoints == vp_r0,
 //@|     forall|o: OutPoint| cnt(self.tx_outs@, o) == cnt(old(self).tx_outs@, o) - (#[trigger] refs_txs(block.txs@, it.index@ as int, o) + refs_ins(tx.ins@, tx.ins@.len() as int, o) + refs_outs(*tx, it3.index@ as int, o)),
 //@|     forall|o: OutPoint| cnt(old(self).tx_outs@, o) >= #[trigger] refs_block(*block, o),
 //@ loopend 3
